@@ -126,6 +126,7 @@ func checkMain(args []string) int {
 	validated := 0
 	validationMismatch := 0
 
+	seenEntry := map[string]int{}
 	for _, h := range spec.Harnesses {
 		if only != "" && h.Entry != only {
 			continue
@@ -143,6 +144,11 @@ func checkMain(args []string) int {
 			for k, v := range h.Thorough {
 				params[k] = v
 			}
+		}
+		seenEntry[h.Entry]++
+		if params["skip"] == 1 {
+			// a configuration registered for the other tier only
+			continue
 		}
 		cfg := gosym.Config{Entry: h.Entry, Workers: workers, Params: params, Preempt: -1, KeepScripts: 6,
 			InitPkgs: map[string]bool{}, NoopPkgs: spec.NoopPkgs}
@@ -197,7 +203,12 @@ func checkMain(args []string) int {
 		}
 		// confirm violations
 		for vi, v := range res.Violations {
-			cex := filepath.Join(outDir, fmt.Sprintf("cex-%s-%d.json", h.Entry, vi))
+			cexName := fmt.Sprintf("cex-%s-%d.json", h.Entry, vi)
+			if k := seenEntry[h.Entry]; k > 1 {
+				// the same entry registered with a second set of parameters
+				cexName = fmt.Sprintf("cex-%s.%d-%d.json", h.Entry, k, vi)
+			}
+			cex := filepath.Join(outDir, cexName)
 			writeCex(cex, h.Entry, params, v)
 			conf := ""
 			if !h.Threads && !h.NoNative && !usesEngineOnlyChoices(v) {
